@@ -198,7 +198,9 @@ def main(tier):
     core = core + comp
     n = 120 if tier == "quick" else 800
     rand = gen_dynamic.generate(seed() * 6007 + 19, n, "choose")
-    cases = core + rand
+    # random modular programs whose compose blocks choose / shuffle over sub-scenarios and draw run-time values
+    nested = gen_dynamic.generate_nested(seed() * 3571 + 19, 30 if tier == "quick" else 300, tables=2, picks=True)
+    cases = core + rand + nested
     rows = c12.run_batch(ck, cases, need_actions=["Setup", "BehaviorResume", "Pick", "Finish"], run_real=False)
     texts = [r[1] for r in rows]
     reals = pmap(_law_real, list(zip(cases, texts)))
